@@ -12,15 +12,21 @@ func init() {
 	RegisterBuiltin("request-id", func(name string, cfg map[string]interface{}) (Middleware, error) {
 		return func(next http.Handler) http.Handler {
 			return http.HandlerFunc(func(w http.ResponseWriter, r *http.Request) {
-				b := make([]byte, 16)
-				_, err := rand.Read(b)
-				if err != nil {
-					logger := logging.WithContext(r.Context())
-					logger.Error().Err(err).Msg("failed to generate request ID")
-					next.ServeHTTP(w, r)
-					return
+				// Keep an ID the request already carries (from the client, or from the
+				// logging.request_id middleware in front of the chain): generating a second
+				// one gave the backend a different ID than the client got back.
+				idStr := r.Header.Get("X-Request-ID")
+				if idStr == "" {
+					b := make([]byte, 16)
+					_, err := rand.Read(b)
+					if err != nil {
+						logger := logging.WithContext(r.Context())
+						logger.Error().Err(err).Msg("failed to generate request ID")
+						next.ServeHTTP(w, r)
+						return
+					}
+					idStr = hex.EncodeToString(b)
 				}
-				idStr := hex.EncodeToString(b)
 
 				r.Header.Set("X-Request-ID", idStr)
 
